@@ -1,12 +1,13 @@
 import Driver.Util
 import Driver.Base64
 import Driver.Mime
+import Driver.Net
 
 open Drv
 
 def dispatch (line : String) : String :=
   let ws := words line
-  let ops : List (List String → Option String) := [base64Op, mimeOp]
+  let ops : List (List String → Option String) := [base64Op, mimeOp, netOp]
   match ops.findSome? (fun f => f ws) with
   | some r => r
   | none => "bad-op"
